@@ -344,8 +344,9 @@ class StmtMixin:
                     seq0 = self.enum_dict(seq0, env, "_seq%d" % ordn)
                 if not isinstance(seq0, V):
                     raise Unsupported("for over %s" % type(seq0).__name__)
-                if isinstance(it_expr, ast.Call) and isinstance(seq0.ty, TList):
+                if (isinstance(it_expr, ast.Call) or (isinstance(it_expr, ast.Subscript) and isinstance(it_expr.slice, ast.Slice))) and isinstance(seq0.ty, TList):
                     # the iterable expression is evaluated ONCE (Python semantics); iterate the bound snapshot
+                    # (a call result or a slice copy `xs[:]` is a fresh list that the body cannot change)
                     env.locals["_seq%d" % ordn] = seq0
                     it_expr = ast.Name(id="_seq%d" % ordn, ctx=ast.Load())
                 if isinstance(seq0.ty, TRef) or not isinstance(seq0.ty, (TList, TTuple)) and seq0.ty != TBytes:
@@ -365,6 +366,10 @@ class StmtMixin:
                 env.locals["_seq%d" % ordn] = seq0
                 lo = I(0)
             env.locals[idxname] = V(TInt, lo)
+        else:
+            # while loop: `_i<n>` is a ghost counter of the iterations started (so that an invariant can be stated the same
+            # way whether the code is written as a for loop or as a while loop)
+            env.locals[idxname] = V(TInt, I(0))
 
         def cond_value():
             if kind == "while":
@@ -438,8 +443,9 @@ class StmtMixin:
         self.havoc_for_loop(st, env, spec)
         havocked_keys = {k for k, _r in self.heap.dirty}
         self.heap.dirty = []
-        if kind == "for":
-            env.locals[idxname] = sym.fresh(TInt, self.ctx.fresh_name(idxname))
+        env.locals[idxname] = sym.fresh(TInt, self.ctx.fresh_name(idxname))
+        if kind == "while":
+            self.ctx.assume(env.locals[idxname].t >= 0)
         head_locals = dict(env.locals)
         havocked_names = {n for n, v in head_locals.items() if pre_locals.get(n) is not v}
         n_new = len(getattr(self, "new_refs", []))
@@ -455,6 +461,8 @@ class StmtMixin:
         if self.ctx.branch(cond_value()):
             if kind == "for":
                 bind_target()
+            else:
+                env.locals[idxname] = V(TInt, env.locals[idxname].t + 1)
             back = False
             if not hasattr(self, "loop_stack"):
                 self.loop_stack = []
